@@ -795,7 +795,17 @@ pub fn oracle_c07(scn: &E1Scn, d: &Digest, out: &RunOut, stats: &mut Stats) -> V
         let st = scn.op(*id);
         let sent = d.send.get(id).map(|s| s.0).unwrap_or(0);
         // the process that was running when to_wait was sent is still running at the watchdog instant
-        let still_running = d.children.iter().any(|c| c.spawn_t <= sent + busy_bound(scn) && c.exit.map(|e| e.0 >= *h).unwrap_or(true));
+        // ... "running" as the job sees it: the end of a process counts from the instant the job task collected
+        // it (a stalled job task may observe an exit late); an exit before the watchdog that is never collected at all
+        // is not excused
+        let still_running = d.children.iter().any(|c| {
+            c.spawn_t <= sent + busy_bound(scn)
+                && match (c.exit, c.reaped) {
+                    (_, Some(r)) => r.0 >= *h,
+                    (Some(e), None) => e.0 >= *h,
+                    (None, None) => true,
+                }
+        });
         if st.op == Op::ToWait && still_running {
             // legitimately pending: a process is still running when the run ends
             stats.hit("probe:to-wait-on-immortal-child");
